@@ -74,15 +74,15 @@ PROPS['C02'] = dict(
 )
 PROPS['C03'] = dict(
   level='proof',
-  verus=[dict(unit='ops', min_functions=10), dict(unit='peephole', min_functions=2), dict(unit='klass', min_functions=4), dict(unit='calls', min_functions=1), dict(unit='ncall', min_functions=1)],
-  not_decided=['compile-time field numbering vs run-time Field order (Compiler::class/emit_fields), meta classes (meta_from_super), is_subclass (pointer recursion)',
+  verus=[dict(unit='ops', min_functions=10), dict(unit='peephole', min_functions=2), dict(unit='klass', min_functions=4), dict(unit='calls', min_functions=1), dict(unit='ncall', min_functions=1), dict(unit='propcomp', min_functions=9)],
+  not_decided=['compile-time field numbering vs run-time Field order (Compiler::class/emit_fields; which accesses get a fixed slot IS decided: propcomp unit), meta classes (meta_from_super), is_subclass (pointer recursion)',
                'A-heap: in the ops unit the class tables are abstract functions; that a field keeps its slot and a subclass extends its parent numbering is proved in the klass unit; A-slot'],
 )
 PROPS['C13'] = dict(
   level='proof',
-  verus=[dict(unit='ops', min_functions=12), dict(unit='klass', min_functions=4)],
+  verus=[dict(unit='ops', min_functions=12), dict(unit='klass', min_functions=4), dict(unit='cachetrace', min_functions=1), dict(unit='propcomp', min_functions=6)],
   not_decided=['A-slot: every slot id in live code of a module is inside that module\'s cache and belongs to one site with one name (established by Vm::compile; false for REPL entries, see C19)',
-               'A-classid: a class address identifies one class for as long as it sits in a cache: holds since fix ae3a806 made the caches roots (D21; the root-set obligation is in the gctrace unit, C05)'],
+               'A-classid: a class address identifies one class for as long as it sits in a cache: holds since fix ae3a806 made the caches roots (D21; the root-set obligation is in the gctrace unit, that InlineCache::trace reaches every entry in the cachetrace unit)'],
 )
 PROPS['C16'] = dict(
   level='proof',
@@ -111,7 +111,7 @@ PROPS['C20'] = dict(
 
 PROPS['C05'] = dict(
   level='proof',
-  verus=[dict(unit='gctrace', min_functions=34), dict(unit='klass', min_functions=2), dict(unit='gcglue', min_functions=8)],
+  verus=[dict(unit='gctrace', min_functions=34), dict(unit='klass', min_functions=2), dict(unit='gcglue', min_functions=8), dict(unit='cachetrace', min_functions=1)],
   kani=[dict(crate='trace', harnesses=['proofs::o05_2_dispatch_%s' % k for k in ['channel', 'class', 'closure', 'enumerator', 'fun', 'instance', 'list', 'method', 'native', 'string', 'lybox', 'tuple']],
              kind='bounded', bound='12 of 13 object kinds (Map excluded: generic impl cannot be stubbed), one raw object per kind, unwind 15', timeout=1200, jobs=4, mem_gb=12, assumption_ids=['A-kani', 'A-stub', 'A-bound']),
         dict(crate='gc', harnesses=_GC_C05, kind='bounded', bound='one LyBox, one or two collections, unwind 4', timeout=2400, jobs=3, assumption_ids=['A-kani', 'A-stub', 'A-bound'])],
